@@ -442,9 +442,68 @@ def check_L1_short_records(S, p):
         S.case(key=digest([q["records"], q["map"], "short"]), nontrivial=True)
 
 
+def check_L1_swings(S, p, tier_len):
+    """Neighbouring sites whose amount of called data swings from almost nothing to almost everything, in populations of very different
+    sizes (a handful of samples next to 33-70), projected to small targets: per site the class (exact / projectable / not enough data) of
+    each population is drawn afresh, so that whatever a reader keeps from one site to the next - a class, a table, a summary of the
+    called totals - meets a neighbour for which it is wrong. The long-lived reader must answer every record as a fresh reader does."""
+    rng = rng_for(S.seed, "c11", p["name"], "swings")
+    sizes = [rng.randint(2, 6), rng.randint(33, 70)] + ([rng.choice([1, 3, 34, 40])] if rng.random() < 0.4 else [])
+    rng.shuffle(sizes)
+    if rng.random() < 0.6:
+        sizes.sort()                       # the small population first more often than not
+    ns = sum(sizes)
+    samples = ["s%d" % j for j in range(ns)]
+    labs = ["P%d" % j for j in range(len(sizes))]
+    smap, cols_by_pop, c0 = [], [], 0
+    for lab, n_ in zip(labs, sizes):
+        cols_by_pop.append(list(range(c0, c0 + n_)))
+        smap += [(samples[c_], lab) for c_ in range(c0, c0 + n_)]
+        c0 += n_
+    project = [rng.choice([2, 4, 6, 2 * n_]) if n_ >= 3 else 2 * n_ for n_ in sizes]
+    project = [min(m, 2 * n_) for m, n_ in zip(project, sizes)]
+    hist = []
+    for _ in range(tier_len):
+        row = []
+        for n_, m in zip(sizes, project):
+            mode = rng.random()
+            if mode < 0.4:
+                called = rng.randint(0, min(n_, 10))            # almost nothing called
+            elif mode < 0.8:
+                called = rng.randint(max(0, n_ - 10), n_)       # almost everything called
+            else:
+                called = rng.randint(0, n_)
+            on = set(rng.sample(range(n_), called))
+            pa = rng.choice([0.0, 0.2, 0.5])
+            row.append("".join(str((rng.random() < pa) + (rng.random() < pa)) if j in on else "3" for j in range(n_)))
+        hist.append("".join(row))
+    base = {"op": "site_hist", "samples": samples, "map": E.map_json(smap), "project": [m + 1 for m in project], "records": hist}
+    live, fresh = harness.run_all([dict(base, fresh=False), dict(base, fresh=True)], timeout=900)
+    S.count("L1_swing_histories")
+    wit = {"level": "L1", "swings": {"sizes": sizes, "project": project, "records": len(hist), "seed_labels": [p["name"], "swings"]}}
+    tag = "L1 swings %s sizes %r target %r" % (p["name"], sizes, project)
+    if "events" not in live or "events" not in fresh or len(live["events"]) != len(hist) or len(fresh["events"]) != len(hist):
+        S.viol("C11:fail", "[%s] %s / %s" % (tag, str(live)[:200], str(fresh)[:200]), wit)
+        return
+    kinds = [kind_of(r, cols_by_pop, project) for r in hist]
+    for a, b in zip(kinds, kinds[1:]):
+        S.count("swing pair %s -> %s" % (a, b))
+    for step, (el, ef) in enumerate(zip(live["events"], fresh["events"])):
+        S.count("L1_steps")
+        if not (el["k"] == ef["k"] and el.get("idx") == ef.get("idx") and el.get("v") == ef.get("v") and el.get("skipped") == ef.get("skipped")):
+            called = lambda r_: [2 * sum(1 for c_ in cols if r_[c_] != "3") for cols in cols_by_pop]
+            S.viol("C11:leak:swings", "[%s] step %d (called alleles %r, oracle class %s) after a record with called alleles %r (%s): long-lived reader gave a %r event, a fresh reader a %r event" % (
+                tag, step, called(hist[step]), kinds[step], called(hist[step - 1]) if step else None, kinds[step - 1] if step else None, el["k"], ef["k"]),
+                dict(wit, step=step, record=hist[step], previous=hist[step - 1] if step else None))
+            break
+    S.case(key=digest(["swings", sizes, project, len(hist), S.seed, p["name"]]), nontrivial=len(set(kinds)) >= 3)
+
+
 def shard(S, p):
     if "replay" in p:
-        if p["replay"].get("level") == "L1":
+        if "swings" in p["replay"]:
+            check_L1_swings(S, dict(p, name=p["replay"]["swings"]["seed_labels"][0]), p["replay"]["swings"]["records"])
+        elif p["replay"].get("level") == "L1":
             check_L1(S, p)
         else:
             S.inconc("C witnesses carry the inputs for manual replay")
@@ -453,5 +512,6 @@ def shard(S, p):
     if p["i"] % 8 == 4:
         check_L1_long_history(S, p)
     check_L1_short_records(S, p)
+    check_L1_swings(S, p, 1500 if p["hist"] < 1000 else 20000)
     check_C(S, p)
     check_C_value_less(S, p)
